@@ -47,6 +47,9 @@ MXSS = ["<style><!--</style><img src=x onerror=alert(1)>-->", "<title>&lt;img sr
         "<!DOCTYPE html PUBLIC 'x><img src=x onerror=alert(1)>'>", "<!DOCTYPE html PUBLIC \"x><script>alert(1)</script>\">", "<!DOCTYPE html SYSTEM 'a><img src=x onerror=1>'>",
         "<!DOCTYPE a><img onerror=1>", "<!DOCTYPE html PUBLIC \"-//x\" 'y><svg onload=1>'>", "<!DOCTYPE html PUBLIC 'a\"><img src=x onerror=1>'>",
         "<a title=\"x\x0bonmouseover\">", "<p title='a&#11;onclick'>", "<a title=\"x\x1conmouseover\">", "<b title='a\x0conclick=1'>", "<i title=\"a\u2028onclick\" lang=\"b\xa0onfocus\">",
+        # what the reader's encoding sniffing makes of quotes and escape sequences inside attribute values
+        "<a title=\"'><meta charset=iso-2022-jp>\">x</a><img alt=\"\x1b$B\">\x1b(B\" onerror=alert(1) <b>", "<b title='\"><meta charset=iso-2022-jp>'>y</b><img alt='\x1b$B'>\x1b(B' onerror=alert(1) <i>",
+        "<p title=\"><meta charset=shift_jis>\">\x81", "<a title=\"'><meta http-equiv=content-type content='text/html; charset=iso-2022-jp'>\">\x1b$B", "<i title='<meta charset=utf-16>'>",
         "<a title=\"x\x00onmouseover\">", "<a title=\"x&#x1f;onmouseover\" id=\"&#x85;onclick\">", "&lt;script&gt;x&lt;/script&gt;", "&#60;img src=x onerror=1&#62;"]
 
 
@@ -81,6 +84,8 @@ def decode_cfg(data):
     first["namespace"] = dec.below(5) != 0
     opts["_encoding"] = dec.pick([None, None, "utf-8", "ascii", "koi8-r"])
     opts["_inject"] = bool(dec.below(3))
+    # the sanitized BYTES read back as bytes, with nothing said about their encoding (the reader sniffs: BOM, <meta> prescan, default)
+    second["bytes"] = dec.below(3) == 0
     return opts, first, second
 
 
@@ -205,7 +210,9 @@ def check_case(case):
         try:
             ser = HTMLSerializer(sanitize=True, inject_meta_charset=inject, **opts)
             out = ser.render(h5.walk(tree, first["walker"]), enc)
+            out_bytes = None
             if enc:
+                out_bytes = out
                 out = out.decode(enc)
         except UnicodeEncodeError as e:
             if enc:
@@ -219,6 +226,8 @@ def check_case(case):
             p2 = p
             r2 = (p2.parse(out, scripting=second["scripting"]) if second["container"] is None
                   else p2.parseFragment(out, container=second["container"], scripting=second["scripting"]))
+        elif second.get("bytes") and out_bytes is not None:
+            r2, p2 = h5.parse(out_bytes, builder="etree", container=second["container"], scripting=second["scripting"], full_tree=True)
         else:
             r2, p2 = h5.parse(out, builder="etree", container=second["container"], scripting=second["scripting"], full_tree=True)
     except Exception as e:
